@@ -3,6 +3,8 @@ package csproto
 import (
 	"errors"
 
+	gogo "github.com/gogo/protobuf/proto"
+	protov1 "github.com/golang/protobuf/proto" //nolint: staticcheck // we're using this deprecated package intentionally
 	"google.golang.org/protobuf/proto"
 )
 
@@ -88,7 +90,16 @@ func Unmarshal(data []byte, msg interface{}) error {
 	}
 
 	if pu, ok := msg.(ProtoV1Unmarshaler); ok {
-		return pu.XXX_Unmarshal(data)
+		// XXX_Unmarshal() merges the data into whatever msg already holds and (Google V1) does not report
+		// unset required fields, unlike the Unmarshal() function of the runtime that owns the message
+		switch MsgType(msg) {
+		case MessageTypeGogo:
+			return gogo.Unmarshal(data, msg.(gogo.Message))
+		case MessageTypeGoogleV1:
+			return protov1.Unmarshal(data, msg.(protov1.Message))
+		default:
+			return pu.XXX_Unmarshal(data)
+		}
 	}
 
 	if pm, ok := msg.(proto.Message); ok {
